@@ -6,7 +6,7 @@ c_MaxNodes == 4
 c_OpSet == {"had", "index", "kron", "outerprod", "rsum", "square", "sum"}
 c_LogLeaves == FALSE
 c_EmitMod == 150
-c_EmitRes == 1
+c_EmitRes == 0
 c_LeafKinds == {"const", "ref", "tensor"}
 c_PosLeaves == FALSE
 ====
